@@ -10,7 +10,9 @@ import json, os, subprocess, sys, shutil, argparse, glob, time
 
 HERE = os.path.dirname(os.path.abspath(__file__))
 VERIF = os.path.dirname(HERE)
-SCRATCH = "/tmp/exo-mut"
+import tempfile, atexit
+SCRATCH = tempfile.mkdtemp(prefix="exo-mut-")
+atexit.register(lambda: shutil.rmtree(SCRATCH, ignore_errors=True))
 ENV = dict(os.environ, GOFLAGS="-mod=mod", GOPROXY="off", GOSUMDB="off", GOTOOLCHAIN="local")
 ENV.pop("GOWORK", None)
 
@@ -18,12 +20,11 @@ def sh(cmd, **kw):
     return subprocess.run(cmd, shell=True, text=True, capture_output=True, env=ENV, **kw)
 
 def ensure_scratch():
-    if not os.path.isdir(SCRATCH):
-        r = sh(f"git -C /repo worktree add --detach {SCRATCH} HEAD")
-        if r.returncode != 0:
-            print(r.stderr); sys.exit(2)
-    else:
-        sh(f"git -C {SCRATCH} checkout -q --detach $(git -C /repo rev-parse HEAD) && git -C {SCRATCH} checkout -- . && git -C {SCRATCH} clean -fdq")
+    # a private copy of /repo's working tree (never /repo itself); removed when the script exits
+    r = sh(f"rsync -a --exclude .git --exclude out /repo/ {SCRATCH}/")
+    if r.returncode != 0:
+        print(r.stderr); sys.exit(2)
+    sh(f"cd {SCRATCH} && git init -q && git add -A && git -c user.email=x@x -c user.name=x commit -qm base")
 
 def main():
     ap = argparse.ArgumentParser()
@@ -38,7 +39,7 @@ def main():
     muts = [m for m in muts if a.k in m["id"] and (not a.p or m["prop"] == a.p)]
     ensure_scratch()
     sh(f"{VERIF}/build.sh")
-    evdir = "/tmp/exo-mut-evidence"
+    evdir = SCRATCH + "-evidence"
     os.makedirs(evdir, exist_ok=True)
     bad = 0
     for m in muts:
@@ -80,6 +81,11 @@ def main():
     if not a.keep:
         sh(f"git -C {SCRATCH} checkout -- . && git -C {SCRATCH} clean -fdq")
     print(f"{len(muts)} mutants, {bad} not as expected")
+    shutil.rmtree(SCRATCH + "-evidence", ignore_errors=True)
+    if a.keep:
+        atexit.unregister
+        print("kept:", SCRATCH)
+        os._exit(1 if bad else 0)
     sys.exit(1 if bad else 0)
 
 main()
